@@ -796,7 +796,7 @@ class TaskDescription(FastTypedDict):
 
         if self.worker_class:
             self.raptor_class = self.worker_class
-            self.raptor_class = ''
+            self.worker_class = ''
 
         if self.use_mpi is None:
             self.use_mpi = bool(self.ranks - 1)
